@@ -221,15 +221,18 @@ Qed.
 Lemma rstep_same b s i : same_store s (rstep b s i).
 Proof.
   unfold rstep. destruct (nth_error (st_readers s) i) as [r|]; [|apply same_store_refl].
-  destruct (r_pc r) as [| | |sig| |x].
+  assert (C : forall pc, same_store s (notify_one (r_n r) (set_reader s i (with_pc r pc)))).
+  { intros pc. apply (same_store_trans s (set_reader s i (with_pc r pc))); [repeat split | apply notify_one_same]. }
+  destruct (r_pc r) as [| | |ph sig| |x].
   - destruct (r_n r =? 0); [repeat split|]. destruct (lookup s (r_n r)); repeat split.
   - destruct (r_n r <=? st_hsh s); repeat split.
   - destruct (r_n r <=? st_hsh s); repeat split.
-  - unfold ctx_branch.
-    destruct b; [destruct (r_cancel r)|destruct sig; [|destruct (r_cancel r)]];
-      try apply same_store_refl; try (repeat split; fail);
-      match goal with |- same_store ?s (notify_one ?n ?t) =>
-        apply (same_store_trans s t); [repeat split | apply notify_one_same] end.
+  - destruct ph.
+    + destruct (lookup s (r_n r)); repeat split.
+    + apply C.
+    + unfold ctx_branch.
+      destruct b; [destruct (r_cancel r)|destruct sig; [|destruct (r_cancel r)]];
+        try apply same_store_refl; try (repeat split; fail); apply C.
   - repeat split.
   - apply same_store_refl.
 Qed.
@@ -408,11 +411,12 @@ Proof.
 Qed.
 
 (** * what a step does to one reader *)
-Definition sig_of (r : reader) : reader := Reader (r_n r) (RParked true) (r_cancel r) (r_late r).
+Definition sig_of (r : reader) : reader :=
+  match r_pc r with RWait ph _ => with_pc r (RWait ph true) | _ => r end.
 
 Lemma signal_spec p r : signal p r = if parked r && p (r_n r) then sig_of r else r.
 Proof.
-  unfold signal, parked. destruct (r_pc r) as [| | |[|]| |]; cbn; try reflexivity.
+  unfold signal, parked, sig_of. destruct (r_pc r) as [| | |ph [|]| |]; cbn; try reflexivity.
 Qed.
 
 Lemma signal_false r : signal (fun _ => false) r = r.
@@ -422,7 +426,7 @@ Lemma map_signal_false l : map (signal (fun _ => false)) l = l.
 Proof. induction l; cbn; [reflexivity|]. rewrite signal_false, IHl. reflexivity. Qed.
 
 Lemma signal_n p r : r_n (signal p r) = r_n r.
-Proof. rewrite signal_spec. destruct (_ && _); reflexivity. Qed.
+Proof. rewrite signal_spec. unfold sig_of. destruct (_ && _); [|reflexivity]. destruct (r_pc r); reflexivity. Qed.
 
 (** new record of the reader that takes a step *)
 Definition rnext (b : bool) (s : state) (r : reader) : reader :=
@@ -436,9 +440,14 @@ Definition rnext (b : bool) (s : state) (r : reader) : reader :=
          end
   | RCheck1 => if n <=? st_hsh s then with_pc r RLookup2 else with_pc r RLocked
   | RLocked =>
-    if n <=? st_hsh s then with_pc r RLookup2
-    else Reader n (RParked false) (r_cancel r) (mem n (st_notified s))
-  | RParked sig =>
+    if n <=? st_hsh s then with_pc r RLookup2 else with_pc r (RWait PRecheck false)
+  | RWait PRecheck sig =>
+    match lookup s n with
+    | Some _ => with_pc r (RWait PDereg sig)
+    | None => with_pc r (RWait PSelect sig)
+    end
+  | RWait PDereg sig => with_pc r RLookup2
+  | RWait PSelect sig =>
     if b then (if r_cancel r then with_pc r (RDone RCtx) else r)
     else if sig then with_pc r RLookup2
     else if r_cancel r then with_pc r (RDone RCtx) else r
@@ -477,28 +486,34 @@ Lemma rstep_readers b s i r : nth_error (st_readers s) i = Some r ->
               /\ signal hit (rnext b s r) = rnext b s r.
 Proof.
   intros E. unfold rstep, rnext. rewrite E.
-  assert (T : forall x, parked x = false -> exists hit,
+  assert (T : forall x, exists hit,
              upd (st_readers s) i x = map (signal hit) (upd (st_readers s) i x) /\ signal hit x = x).
-  { intros x _. exists (fun _ => false). rewrite map_signal_false, signal_false. auto. }
+  { intros x. exists (fun _ => false). rewrite map_signal_false, signal_false. auto. }
   assert (U : exists hit, st_readers s = map (signal hit) (upd (st_readers s) i r) /\ signal hit r = r).
   { exists (fun _ => false). rewrite map_signal_false, signal_false. split; auto.
     clear - E. revert i E; induction (st_readers s) as [|a l IH]; intros [|i]; cbn; try discriminate.
     - intros [= ->]; reflexivity.
     - intros E. f_equal. auto. }
-  assert (C : exists hit, st_readers (ctx_branch s i r) =
-                map (signal hit) (upd (st_readers s) i (with_pc r (RDone RCtx)))
-                /\ signal hit (with_pc r (RDone RCtx)) = with_pc r (RDone RCtx)).
-  { unfold ctx_branch.
-    destruct (notify_one_readers (r_n r) (set_reader s i (with_pc r (RDone RCtx)))) as [hit H].
-    exists hit. split; [exact H|]. rewrite signal_spec. reflexivity. }
-  destruct (r_pc r) as [| | |sig| |x] eqn:Epc.
-  - destruct (r_n r =? 0); [apply T; reflexivity|]. destruct (lookup s (r_n r)); apply T; reflexivity.
-  - destruct (r_n r <=? st_hsh s); apply T; reflexivity.
-  - destruct (r_n r <=? st_hsh s); [apply T; reflexivity|].
+  assert (C : forall pc, (forall ph, pc <> RWait ph false) -> exists hit,
+                st_readers (notify_one (r_n r) (set_reader s i (with_pc r pc))) =
+                map (signal hit) (upd (st_readers s) i (with_pc r pc))
+                /\ signal hit (with_pc r pc) = with_pc r pc).
+  { intros pc Hpc.
+    destruct (notify_one_readers (r_n r) (set_reader s i (with_pc r pc))) as [hit H].
+    exists hit. split; [exact H|]. rewrite signal_spec. unfold parked. cbn.
+    destruct pc as [| | |ph [|]| |]; try reflexivity. exfalso. apply (Hpc ph). reflexivity. }
+  destruct (r_pc r) as [| | |ph sig| |x] eqn:Epc.
+  - destruct (r_n r =? 0); [apply T|]. destruct (lookup s (r_n r)); apply T.
+  - destruct (r_n r <=? st_hsh s); apply T.
+  - destruct (r_n r <=? st_hsh s); [apply T|].
     exists (fun _ => false). split; [cbn; rewrite map_signal_false; reflexivity | apply signal_false].
-  - destruct b; [destruct (r_cancel r); [exact C | exact U]|].
-    destruct sig; [apply T; reflexivity|]. destruct (r_cancel r); [exact C | exact U].
-  - apply T; reflexivity.
+  - destruct ph.
+    + destruct (lookup s (r_n r)); apply T.
+    + unfold dereg_branch. apply C. discriminate.
+    + unfold ctx_branch.
+      destruct b; [destruct (r_cancel r); [apply C; discriminate | exact U]|].
+      destruct sig; [apply T|]. destruct (r_cancel r); [apply C; discriminate | exact U].
+  - apply T.
   - exact U.
 Qed.
 
@@ -526,7 +541,7 @@ Qed.
 Definition own_step (e : event) (j : nat) : bool :=
   match e with Rd i | RdCtx i => Nat.eqb i j | _ => false end.
 
-Definition cancel_of (r : reader) : reader := Reader (r_n r) (r_pc r) true (r_late r).
+Definition cancel_of (r : reader) : reader := Reader (r_n r) (r_pc r) true.
 
 Lemma step_other s e j r : own_step e j = false -> nth_error (st_readers s) j = Some r ->
   exists r', nth_error (st_readers (step s e)) j = Some r' /\
@@ -568,7 +583,7 @@ Qed.
 (** * progress of one reader along a schedule *)
 Lemma rnext_n b s r : r_n (rnext b s r) = r_n r.
 Proof.
-  unfold rnext. destruct (r_pc r) as [| | |sig| |x]; cbn;
+  unfold rnext. destruct (r_pc r) as [| | |[| |] sig| |x]; cbn;
     repeat match goal with |- context[if ?c then _ else _] => destruct c; cbn end;
     try destruct (lookup s (r_n r)); reflexivity.
 Qed.
@@ -604,30 +619,36 @@ End Progress.
 
 (** ** a cancelled context always releases the caller *)
 Definition crank (pc : rpc) : nat :=
-  match pc with RStart => 5 | RCheck1 => 4 | RLocked => 3 | RParked _ => 2 | RLookup2 => 1 | RDone _ => 0 end.
+  match pc with
+  | RStart => 7 | RCheck1 => 6 | RLocked => 5
+  | RWait PRecheck _ => 4 | RWait PDereg _ => 3 | RWait PSelect _ => 2
+  | RLookup2 => 1 | RDone _ => 0
+  end.
 
 Definition Pcancel (_ : state) (k : nat) (r : reader) : Prop :=
   r_cancel r = true /\ (crank (r_pc r) <= k)%nat.
 
 Lemma cancel_releases_gen s i r sched : nth_error (st_readers s) i = Some r -> r_cancel r = true ->
   exists r', nth_error (st_readers (run sched s)) i = Some r' /\
-             r_n r' = r_n r /\ r_cancel r' = true /\ (crank (r_pc r') <= 5 - rd_count sched i)%nat.
+             r_n r' = r_n r /\ r_cancel r' = true /\ (crank (r_pc r') <= 7 - rd_count sched i)%nat.
 Proof.
   intros E Hc.
   set (P := fun (s0 : state) (k : nat) (x : reader) => Pcancel s0 k x /\ r_n x = r_n r).
-  destruct (progress_run P) with (sched := sched) (s := s) (i := i) (r := r) (k := 5%nat) as (r' & H1 & (H2 & H3) & H4); auto.
+  destruct (progress_run P) with (sched := sched) (s := s) (i := i) (r := r) (k := 7%nat) as (r' & H1 & (H2 & H3) & H4); auto.
   - intros s0 e k x x' [[Hx1 Hx2] Hx3] [[->|[Hp ->]]| ->]; (split; [split|]); cbn; auto.
-    unfold parked in Hp. destruct (r_pc x) as [| | |[|]| |]; try discriminate. cbn in Hx2. lia.
+    all: unfold sig_of; unfold parked in Hp; destruct (r_pc x) as [| | |[| |] [|]| |]; try discriminate; cbn in *; auto.
   - intros s0 e k x b [[Hx1 Hx2] Hx3]. split; [|rewrite rnext_n; exact Hx3]. unfold Pcancel, rnext.
-    destruct (r_pc x) as [| | |sig| |y] eqn:Epc; cbn in Hx2.
+    destruct (r_pc x) as [| | |[| |] sig| |y] eqn:Epc; cbn in Hx2.
     + destruct (r_n x =? 0); [|destruct (lookup s0 (r_n x))]; cbn; split; auto; lia.
     + destruct (r_n x <=? st_hsh s0); cbn; split; auto; lia.
     + destruct (r_n x <=? st_hsh s0); cbn; split; auto; lia.
+    + destruct (lookup s0 (r_n x)); cbn; split; auto; lia.
+    + cbn; split; auto; lia.
     + rewrite Hx1. destruct b; [|destruct sig]; cbn; split; auto; lia.
     + cbn; split; auto; lia.
     + rewrite Epc. cbn. split; auto; lia.
   - intros s0 k x [[Hx1 Hx2] Hx3] k' Hk. split; [split|]; auto. lia.
-  - split; [split|]; auto. destruct (r_pc r); cbn; lia.
+  - split; [split|]; auto. destruct (r_pc r) as [| | |[| |] ?| |]; cbn; lia.
   - exists r'. auto.
 Qed.
 
@@ -654,7 +675,7 @@ Proof.
     as (r' & H1 & (H2 & H3 & H4 & (j & H5 & H6) & H7)); auto.
   - intros s0 e k x x' (I0 & Hx1 & Hx2 & (j & Hj1 & Hj2) & Hx4) Hrel.
     assert (Hpk : parked x = false).
-    { unfold parked. destruct (r_pc x) as [| | |[|]| |]; cbn in *; congruence. }
+    { unfold parked. destruct (r_pc x) as [| | |? [|]| |]; cbn in *; congruence. }
     assert (Hx' : r_n x' = r_n x /\ r_pc x' = r_pc x).
     { destruct Hrel as [[->|[Hp ->]]| ->]; auto; congruence. }
     destruct Hx' as [e1 e2]. unfold P. rewrite e1, e2.
@@ -666,7 +687,7 @@ Proof.
     assert (Hle : (r_n x <=? st_hsh s0) = true) by (apply N.leb_le; lia).
     assert (Hnz : (r_n x =? 0) = false) by (apply N.eqb_neq; congruence).
     unfold rnext. rewrite Hle, Hnz.
-    destruct (r_pc x) as [| | |sig| |[id| | |]] eqn:Epc; cbn in Hj1; try discriminate.
+    destruct (r_pc x) as [| | |ph sig| |[id| | |]] eqn:Epc; cbn in Hj1; try discriminate.
     + destruct (lookup s0 (r_n x)) eqn:El; cbn.
       * split; [exists 0%nat; split; auto; lia|]. intros Hst. destruct (Hx4 Hst). split; [apply stored_mono; auto|discriminate].
       * split; [exists 2%nat; split; auto; injection Hj1 as <-; lia|]. intros Hst. destruct (Hx4 Hst). split; [apply stored_mono; auto|discriminate].
@@ -698,12 +719,18 @@ Proof.
   - intros E. specialize (IH i E). destruct (at_n n a); cbn; lia.
 Qed.
 
+Lemma parked_sig_of r : parked (sig_of r) = false.
+Proof. unfold parked, sig_of. destruct (r_pc r) as [| | |ph [|]| |] eqn:E; cbn; rewrite ?E; reflexivity. Qed.
+
+Lemma n_sig_of r : r_n (sig_of r) = r_n r.
+Proof. unfold sig_of. destruct (r_pc r); reflexivity. Qed.
+
 Lemma at_n_signal hit n r : at_n n (signal hit r) = at_n n r && negb (hit n).
 Proof.
   rewrite signal_spec. unfold at_n. destruct (parked r) eqn:Ep; cbn [andb].
   - destruct (N.eqb_spec (r_n r) n) as [e|ne].
-    + rewrite e. destruct (hit n); cbn; [reflexivity|]. rewrite Ep, e, N.eqb_refl. reflexivity.
-    + destruct (hit (r_n r)); cbn; [reflexivity|]. rewrite Ep. cbn.
+    + rewrite e. destruct (hit n); cbn; [rewrite parked_sig_of; reflexivity|]. rewrite Ep, e, N.eqb_refl. reflexivity.
+    + destruct (hit (r_n r)); cbn; [rewrite parked_sig_of; reflexivity|]. rewrite Ep. cbn.
       destruct (N.eqb_spec (r_n r) n); [congruence|reflexivity].
   - rewrite Ep. reflexivity.
 Qed.
@@ -740,8 +767,14 @@ Definition Ksub (s : state) : Prop :=
             | Some c => (1 <= c <= cnt n (st_readers s))%nat /\ ((c < cnt n (st_readers s))%nat -> stored s n)
             end.
 
+(** registered, and its sub has been closed *)
+Definition sigd (r : reader) : bool := match r_pc r with RWait _ true => true | _ => false end.
+
+Lemma sigd_sig_of r : parked r = true -> sigd (sig_of r) = true /\ r_n (sig_of r) = r_n r /\ parked (sig_of r) = false.
+Proof. unfold parked, sigd, sig_of. destruct (r_pc r) as [| | |ph [|]| |]; try discriminate. cbn. auto. Qed.
+
 Definition Ksig (s : state) : Prop :=
-  forall i r, nth_error (st_readers s) i = Some r -> r_pc r = RParked true ->
+  forall i r, nth_error (st_readers s) i = Some r -> sigd r = true ->
     (stored s (r_n r) \/ r_n r <= st_hsh s) /\ (has_sub (st_subs s) (r_n r) = true -> stored s (r_n r)).
 
 Definition InvK (s : state) : Prop := Ksub s /\ Ksig s.
@@ -769,7 +802,8 @@ Proof.
   - intros i r'. rewrite Er, nth_error_map. destruct (nth_error (st_readers s) i) as [r|] eqn:E; [|discriminate].
     cbn. intros [= <-]. rewrite signal_spec. rewrite Es.
     destruct (parked r && (p (r_n r) && has_sub (st_subs s) (r_n r))) eqn:Eh.
-    + intros _. cbn. apply andb_prop in Eh as [_ Eh]. apply andb_prop in Eh as [Eh _]. split; [auto|].
+    + intros _. apply andb_prop in Eh as [Ep Eh]. apply andb_prop in Eh as [Eh _].
+      destruct (sigd_sig_of r Ep) as (_ & -> & _). split; [auto|].
       rewrite has_sub_filter, Eh. discriminate.
     + intros Hpc. destruct (K2 i r E Hpc) as [A B]. split.
       * destruct A; [left; auto|right; lia].
@@ -781,7 +815,7 @@ Lemma InvK_neutral s s' i r r' :
   st_subs s' = st_subs s -> st_readers s' = upd (st_readers s) i r' ->
   (forall n, stored s n -> stored s' n) -> st_hsh s <= st_hsh s' ->
   nth_error (st_readers s) i = Some r -> (forall n, at_n n r' = at_n n r) ->
-  (r_pc r' = RParked true -> r_pc r = RParked true /\ r_n r' = r_n r) ->
+  (sigd r' = true -> sigd r = true /\ r_n r' = r_n r) ->
   InvK s -> InvK s'.
 Proof.
   intros Es Er Hst Hh E Hp Hsig [K1 K2]. split.
@@ -831,8 +865,8 @@ Qed.
 
 (** registration in Wait's critical section *)
 Lemma InvK_register s s' i r r' n c :
-  nth_error (st_readers s) i = Some r -> parked r = false -> r_pc r <> RParked true ->
-  r_n r' = n -> r_pc r' = RParked false -> st_hsh s < n ->
+  nth_error (st_readers s) i = Some r -> parked r = false -> sigd r = false ->
+  r_n r' = n -> parked r' = true -> st_hsh s < n ->
   c = match sub_get (st_subs s) n with Some c => c | None => O end ->
   st_subs s' = sub_set (st_subs s) n (S c) -> st_readers s' = upd (st_readers s) i r' ->
   (forall m, lookup s' m = lookup s m) -> st_hsh s' = st_hsh s ->
@@ -842,7 +876,7 @@ Proof.
   assert (Hst : forall m, stored s' m <-> stored s m) by (intros m; unfold stored; rewrite Hl; tauto).
   assert (A1 : forall m, at_n m r = false) by (intros m; unfold at_n; rewrite Hp; reflexivity).
   assert (A2 : forall m, at_n m r' = (n =? m)).
-  { intros m. unfold at_n, parked. rewrite Hpc, Hn. reflexivity. }
+  { intros m. unfold at_n. rewrite Hpc, Hn. reflexivity. }
   split.
   - intros m. rewrite Es, Er, sub_get_set. pose proof (cnt_upd m _ i r r' E) as Hcm.
     rewrite A1, A2 in Hcm. specialize (K1 m).
@@ -853,7 +887,8 @@ Proof.
     + replace (cnt m (upd (st_readers s) i r')) with (cnt m (st_readers s)) by lia.
       destruct (sub_get (st_subs s) m); [|exact K1]. destruct K1 as [H1 H2]. split; auto.
       intros H. apply Hst; auto.
-  - intros j x. rewrite Er, Es, Hh'. intros Ex Hx. apply nth_upd_inv in Ex as [(-> & -> & _)|(ne & Ex)]; [congruence|].
+  - intros j x. rewrite Er, Es, Hh'. intros Ex Hx. apply nth_upd_inv in Ex as [(-> & -> & _)|(ne & Ex)].
+    { exfalso. unfold parked, sigd in *. destruct (r_pc r') as [| | |? [|]| |]; discriminate. }
     destruct (K2 j x Ex Hx) as [A B]. split.
     + destruct A; [left; apply Hst; auto|right; auto].
     + unfold has_sub. rewrite sub_get_set. destruct (N.eqb_spec n (r_n x)) as [e|ne'].
@@ -865,7 +900,7 @@ Qed.
 Lemma InvK_notify_upd (p : N -> bool) s s' i r rd :
   st_subs s' = filter (fun q => negb (p (fst q))) (st_subs s) ->
   st_readers s' = map (signal (fun n => p n && has_sub (st_subs s) n)) (upd (st_readers s) i rd) ->
-  nth_error (st_readers s) i = Some r -> parked rd = false -> r_pc rd <> RParked true ->
+  nth_error (st_readers s) i = Some r -> parked rd = false -> sigd rd = false ->
   (parked r = true -> p (r_n r) = true) ->
   (forall n, stored s n -> stored s' n) -> st_hsh s <= st_hsh s' ->
   (forall j x, i <> j -> nth_error (st_readers s) j = Some x -> parked x = true -> p (r_n x) = true ->
@@ -891,7 +926,8 @@ Proof.
     apply nth_upd_inv in Ex as [(-> & -> & _)|(ne & Ex)].
     + rewrite Hrd. cbn. intros H. congruence.
     + destruct (parked x && (p (r_n x) && has_sub (st_subs s) (r_n x))) eqn:Eh.
-      * intros _. cbn. apply andb_prop in Eh as [Eh1 Eh]. apply andb_prop in Eh as [Eh2 Eh3]. split.
+      * intros _. apply andb_prop in Eh as [Eh1 Eh]. apply andb_prop in Eh as [Eh2 Eh3].
+        destruct (sigd_sig_of x Eh1) as (_ & -> & _). split.
         -- apply (Hside j x); auto.
         -- rewrite has_sub_filter, Eh2. discriminate.
       * intros Hpc. destruct (K2 j x Ex Hpc) as [A B]. split.
@@ -901,14 +937,14 @@ Qed.
 
 (** notify(n, false) with other waiters left: count-- *)
 Lemma InvK_decrement s s' i r rd n c :
-  nth_error (st_readers s) i = Some r -> (exists sig, r_pc r = RParked sig) -> r_n r = n ->
-  parked rd = false -> r_pc rd <> RParked true ->
+  nth_error (st_readers s) i = Some r -> (exists ph sig, r_pc r = RWait ph sig) -> r_n r = n ->
+  parked rd = false -> sigd rd = false ->
   sub_get (st_subs s) n = Some c -> (2 <= c)%nat ->
   st_subs s' = sub_set (st_subs s) n (Nat.pred c) -> st_readers s' = upd (st_readers s) i rd ->
   (forall m, lookup s' m = lookup s m) -> st_hsh s' = st_hsh s ->
   InvK s -> InvK s'.
 Proof.
-  intros E [sig Hpc] Hn Hrd Hrd' Hsub Hc Es Er Hl Hh' [K1 K2].
+  intros E (ph & sig & Hpc) Hn Hrd Hrd' Hsub Hc Es Er Hl Hh' [K1 K2].
   assert (Hst : forall m, stored s' m <-> stored s m) by (intros m; unfold stored; rewrite Hl; tauto).
   assert (A2 : forall m, at_n m rd = false) by (intros m; unfold at_n; rewrite Hrd; reflexivity).
   split.
@@ -920,7 +956,8 @@ Proof.
       * (* stale cancellation: the reader's own sub was already closed *)
         assert (A1 : at_n n r = false) by (unfold at_n, parked; rewrite Hpc; reflexivity).
         rewrite A1 in Hcm. cbn in Hcm. split; [lia|]. intros _. apply Hst.
-        destruct (K2 i r E Hpc) as [_ B]. rewrite <- Hn. apply B. unfold has_sub. rewrite Hn, Hsub. reflexivity.
+        assert (Hsg : sigd r = true) by (unfold sigd; rewrite Hpc; reflexivity).
+        destruct (K2 i r E Hsg) as [_ B]. rewrite <- Hn. apply B. unfold has_sub. rewrite Hn, Hsub. reflexivity.
       * assert (A1 : at_n n r = true) by (unfold at_n, parked; rewrite Hpc, Hn, N.eqb_refl; reflexivity).
         rewrite A1 in Hcm. cbn in Hcm. split; [lia|]. intros H. apply Hst, H2. lia.
     + assert (A1 : at_n m r = false).
@@ -973,14 +1010,17 @@ Proof.
     intros n Hn. right. cbn. unfold in_range in Hn. apply andb_prop in Hn as [_ Hn]. apply N.leb_le in Hn. lia.
 Qed.
 
-Lemma InvK_ctx s i r sig : nth_error (st_readers s) i = Some r -> r_pc r = RParked sig ->
-  InvK s -> InvK (ctx_branch s i r).
+Lemma InvK_dereg s i r ph sig pc : nth_error (st_readers s) i = Some r -> r_pc r = RWait ph sig ->
+  (forall ph' sg, pc <> RWait ph' sg) ->
+  InvK s -> InvK (notify_one (r_n r) (set_reader s i (with_pc r pc))).
 Proof.
-  intros E Epc IK. pose proof IK as [K1 K2].
-  set (rd := with_pc r (RDone RCtx)).
-  assert (Hrd : parked rd = false) by reflexivity.
-  assert (Hrd' : r_pc rd <> RParked true) by discriminate.
-  unfold ctx_branch, notify_one. fold rd. cbn [st_subs set_reader set_readers].
+  intros E Epc Hpcn IK. pose proof IK as [K1 K2].
+  set (rd := with_pc r pc).
+  assert (Hrd : parked rd = false).
+  { unfold parked, rd. cbn. destruct pc as [| | |ph' [|]| |]; try reflexivity. exfalso. apply (Hpcn ph' false). reflexivity. }
+  assert (Hrd' : sigd rd = false).
+  { unfold sigd, rd. cbn. destruct pc as [| | |ph' [|]| |]; try reflexivity. exfalso. apply (Hpcn ph' true). reflexivity. }
+  unfold notify_one. cbn [st_subs set_reader set_readers].
   destruct (sub_get (st_subs s) (r_n r)) as [c|] eqn:Esub.
   - pose proof (K1 (r_n r)) as Kn. rewrite Esub in Kn. destruct Kn as [Kc1 Kc2].
     destruct (Nat.eqb (Nat.pred c) 0) eqn:Ec.
@@ -990,7 +1030,8 @@ Proof.
       * cbn. lia.
       * intros j x ne Ex Hx Hp Hsub. apply N.eqb_eq in Hp. left. rewrite Hp.
         change (stored s (r_n r)). destruct sig.
-        -- destruct (K2 i r E Epc) as [_ B]. apply B. unfold has_sub. rewrite Esub. reflexivity.
+        -- assert (Hsg : sigd r = true) by (unfold sigd; rewrite Epc; reflexivity).
+           destruct (K2 i r E Hsg) as [_ B]. apply B. unfold has_sub. rewrite Esub. reflexivity.
         -- apply Kc2.
            assert (A1 : at_n (r_n r) r = true) by (unfold at_n, parked; rewrite Epc, N.eqb_refl; reflexivity).
            assert (A2 : at_n (r_n r) x = true) by (unfold at_n; rewrite Hx, Hp, N.eqb_refl; reflexivity).
@@ -998,8 +1039,8 @@ Proof.
     + apply Nat.eqb_neq in Ec.
       apply (InvK_decrement s _ i r rd (r_n r) c); eauto; try (cbn; lia); try reflexivity.
   - destruct sig.
-    + apply (InvK_neutral s _ i r rd); auto; try (cbn; lia); try (cbn; discriminate).
-      intros n. unfold at_n, parked. cbn. rewrite Epc. reflexivity.
+    + apply (InvK_neutral s _ i r rd); auto; try (cbn; lia); try (rewrite Hrd'; discriminate).
+      intros n. unfold at_n. rewrite Hrd. unfold parked. rewrite Epc. reflexivity.
     + exfalso. pose proof (K1 (r_n r)) as Kn. rewrite Esub in Kn.
       assert (A1 : at_n (r_n r) r = true) by (unfold at_n, parked; rewrite Epc, N.eqb_refl; reflexivity).
       pose proof (cnt_pos _ _ i r E A1). lia.
@@ -1008,24 +1049,27 @@ Qed.
 Lemma InvK_rstep b s i : InvK s -> InvK (rstep b s i).
 Proof.
   intros IK. unfold rstep. destruct (nth_error (st_readers s) i) as [r|] eqn:E; [|exact IK].
-  assert (NT : forall pc, r_pc r <> RParked false -> pc <> RParked false -> pc <> RParked true ->
+  assert (NT : forall pc, parked (with_pc r pc) = parked r -> (sigd (with_pc r pc) = true -> sigd r = true) ->
                  InvK (set_reader s i (with_pc r pc))).
-  { intros pc H1 H2 H3. apply (InvK_neutral s _ i r (with_pc r pc)); auto; try (cbn; lia);
-      try (cbn; intros H; congruence).
-    intros n. unfold at_n, parked. cbn. destruct pc as [| | |[|]| |]; try congruence;
-        destruct (r_pc r) as [| | |[|]| |]; try congruence; reflexivity. }
-  destruct (r_pc r) as [| | |sig| |x] eqn:Epc.
-  - destruct (r_n r =? 0); [|destruct (lookup s (r_n r))]; apply NT; discriminate.
-  - destruct (r_n r <=? st_hsh s); apply NT; discriminate.
-  - destruct (N.leb_spec (r_n r) (st_hsh s)); [apply NT; discriminate|].
-    eapply (InvK_register s _ i r (Reader (r_n r) (RParked false) (r_cancel r) (mem (r_n r) (st_notified s))) (r_n r));
+  { intros pc H1 H2. apply (InvK_neutral s _ i r (with_pc r pc)); auto; try (cbn; lia);
+      try (intros H; split; auto; fail).
+    intros n. unfold at_n. rewrite H1. reflexivity. }
+  destruct (r_pc r) as [| | |ph sig| |x] eqn:Epc.
+  - destruct (r_n r =? 0); [|destruct (lookup s (r_n r))]; apply NT; unfold parked, sigd; cbn; rewrite ?Epc; auto; discriminate.
+  - destruct (r_n r <=? st_hsh s); apply NT; unfold parked, sigd; cbn; rewrite ?Epc; auto; discriminate.
+  - destruct (N.leb_spec (r_n r) (st_hsh s)); [apply NT; unfold parked, sigd; cbn; rewrite ?Epc; auto; discriminate|].
+    eapply (InvK_register s _ i r (with_pc r (RWait PRecheck false)) (r_n r));
       try reflexivity; auto; try congruence.
-    unfold parked. rewrite Epc. reflexivity.
-  - destruct b.
-    + destruct (r_cancel r); [eapply InvK_ctx; eauto | exact IK].
-    + destruct sig; [apply NT; discriminate|].
-      destruct (r_cancel r); [eapply InvK_ctx; eauto | exact IK].
-  - apply NT; discriminate.
+    + unfold parked. rewrite Epc. reflexivity.
+    + unfold sigd. rewrite Epc. reflexivity.
+  - destruct ph.
+    + destruct (lookup s (r_n r)); apply NT; unfold parked, sigd; cbn; rewrite ?Epc; auto.
+    + unfold dereg_branch. eapply InvK_dereg; eauto. discriminate.
+    + unfold ctx_branch. destruct b.
+      * destruct (r_cancel r); [eapply InvK_dereg; eauto; discriminate | exact IK].
+      * destruct sig; [apply NT; unfold parked, sigd; cbn; rewrite ?Epc; auto; discriminate|].
+        destruct (r_cancel r); [eapply InvK_dereg; eauto; discriminate | exact IK].
+  - apply NT; unfold parked, sigd; cbn; rewrite ?Epc; auto; discriminate.
   - exact IK.
 Qed.
 
@@ -1039,6 +1083,7 @@ Proof.
   - apply InvK_rstep; auto.
   - cbn in *. unfold cancel in *. destruct (nth_error (st_readers s) i) as [r|] eqn:E; [|exact IK].
     apply (InvK_neutral s _ i r (cancel_of r)); auto.
+    intros H. split; auto.
   - destruct (wstep_form s IW) as (p & E1 & E2 & E3). eapply InvK_notify; eauto.
   - cbn in *. destruct hs; [exact IK|]. eapply InvK_same; eauto.
 Qed.
@@ -1122,27 +1167,24 @@ Proof.
     + intros Hpc. specialize (P1 Hpc). specialize (Hsub Hpc). destruct P1 as [P1 P1'].
       unfold parked in Ehit. rewrite Hpc, Hsub, andb_true_r in Ehit. cbn in Ehit.
       pose proof IW as [W1 W2 _ _ _].
-      unfold wstep. destruct (st_w s) eqn:Ew; cbn in *.
-      * destruct (st_queue s) as [|[|h0 hs] q]; cbn; [rewrite Ew| |destruct (st_head s)]; cbn; split; auto;
-          destruct P1; auto; discriminate.
-      * destruct W2 as (Hz & x & l & -> & <- & Eh). split; [|auto].
+      wcases s; rewrite ?Ew; cbn in *; try (split; [|exact P1']);
+        try (destruct P1 as [P1|P1]; [left; exact P1|first [right; exact P1 | discriminate P1]]).
+      * (* WInitStore -> WInitNotify *)
+        destruct W2 as (Hz & (x & l & -> & <- & Eh) & _).
         destruct (N.lt_total (fst x) (r_n r)) as [H|[H|H]]; [left; exact H | right | right].
         -- rewrite <- H. cbn. rewrite N.eqb_refl. apply orb_true_r.
         -- apply N.ltb_lt in H. rewrite H. reflexivity.
-      * split; [|auto]. destruct P1 as [H|H].
-        -- left. exact H.
-        -- right. rewrite Ehit in H. exact H.
-      * split; auto.
-      * split.
+      * (* WInitNotify -> WTail *)
+        destruct P1 as [H|H]; [left; exact H|right]. rewrite Ehit in H. exact H.
+      * (* WNotify -> WAdvance *)
+        split.
         -- left. destruct P1 as [H|H]; [exact H|congruence].
         -- unfold mem in *. rewrite existsb_app, Ehit. cbn. exact P1'.
-      * destruct (st_head s); [destruct (_ =? _)|]; cbn; split; auto; destruct P1; auto; discriminate.
-      * destruct P1 as [H|H]; [|discriminate].
-        destruct (N.leb_spec h (st_hsh s)); cbn; split; auto.
+      * (* WSetHeight *)
+        destruct P1 as [H|H]; [|discriminate].
         destruct (N.lt_ge_cases h (r_n r)); [left; auto|right].
         unfold in_range. apply andb_true_intro. split; apply N.leb_le; lia.
-      * split; auto. left. destruct P1 as [H|H]; [exact H|congruence].
-      * destruct (st_tail s); cbn; split; auto; destruct P1; auto; discriminate.
+      * (* WNotifyRange *) left. destruct P1 as [H|H]; [exact H|congruence].
     + intros Hpc. destruct (P2 Hpc); [left; auto|right; lia].
     + intros Hpc. specialize (P3 Hpc). lia.
 Qed.
@@ -1213,7 +1255,10 @@ Proof. revert s; induction sched as [|e l IH]; intros s H; cbn; auto. apply IH, 
 
 (** * history invariants: where results come from, which heights have been announced *)
 Definition w_hs (w : wpc) : list hid :=
-  match w with WInitStore hs _ | WInitNotify hs _ | WAppend hs | WNotify hs => hs | _ => [] end.
+  match w with
+  | WAppend hs | WEnsure hs | WInitStore hs _ | WInitNotify hs _ | WTail hs | WNotify hs => hs
+  | _ => []
+  end.
 
 Record InvU (U : list hid) (s : state) : Prop := {
   u_head : forall x, st_head s = Some x -> In x U;
@@ -1256,12 +1301,6 @@ Proof.
   pose proof (signal_done _ _ _ Hpc) as Hs. rewrite Hs in *. apply (F r0 id); auto.
 Qed.
 
-Ltac wcases s :=
-  unfold wstep; destruct (st_w s) eqn:Ew;
-  [ destruct (st_queue s) as [|[|h0 hs] q] eqn:Eq; [| |cbn [st_head set_queue]; destruct (st_head s) eqn:Eh]
-  | | | | | destruct (st_head s) as [cur|] eqn:Eh; [destruct (_ =? _)|]
-  | destruct (_ <=? _) | | destruct (st_tail s) as [cur|] eqn:Et ].
-
 Lemma InvU_wstep U s : InvU U s -> InvU U (wstep s).
 Proof.
   intros IU.
@@ -1269,14 +1308,15 @@ Proof.
   { intros hs q Eq. split; [|intros l Hl]; apply (u_queue U s IU); rewrite Eq; [left|right]; auto. }
   assert (Ho : forall h0, In h0 U -> forall x, opt_or (st_tail s) h0 = Some x -> In x U).
   { intros h0 Hh x Hx. destruct (st_tail s) eqn:Et; cbn in Hx; injection Hx as <-; auto. apply (u_tail U s IU); auto. }
-  wcases s;
+  pose proof (u_w U s IU) as Hw.
+  wcases s; cbn [w_hs] in Hw;
     (apply (InvU_upd U s); [exact IU | cbn .. | first [eexists; reflexivity | exists (fun _ => false); cbn; rewrite map_signal_false; reflexivity]]);
     try exact (u_head U s IU); try exact (u_tail U s IU); try exact (u_map U s IU); try exact (u_queue U s IU);
-    try exact (u_w U s IU);
+    try exact Hw; try (rewrite Ew; exact Hw);
     try (solve [intros x []]); try (intros x [= <-]); try (intros x Hx; discriminate Hx);
-    try (destruct (Hq _ _ eq_refl) as [Hq1 Hq2]; first [exact Hq1 | exact Hq2 | apply Hq1; left; reflexivity | apply Ho, Hq1; left; reflexivity]);
-    try (pose proof (u_w U s IU) as Hw; rewrite Ew in Hw; exact Hw).
-  - intros x Hx. apply rev_append_In in Hx as [Hx|Hx]; [apply (u_w U s IU); rewrite Ew; exact Hx | apply (u_map U s IU); exact Hx].
+    try (destruct (Hq _ _ eq_refl) as [Hq1 Hq2]; first [exact Hq1 | exact Hq2]);
+    try (apply Hw; left; reflexivity); try (apply Ho, Hw; left; reflexivity).
+  - intros x Hx. apply rev_append_In in Hx as [Hx|Hx]; [apply Hw; exact Hx | apply (u_map U s IU); exact Hx].
   - apply adv_up_in; [intros n id; apply InvU_lookup; exact IU | apply (u_head U s IU); exact Eh].
   - apply adv_down_in; [intros n id; apply InvU_lookup; exact IU | apply (u_tail U s IU); exact Et].
 Qed.
@@ -1382,9 +1422,7 @@ Proof. intros n Hn. right; right. exact Hn. Qed.
 Lemma InvN_wstep H s : InvN H s -> InvN H (wstep s).
 Proof.
   intros IN n Hn. specialize (IN n Hn).
-  wcases s; cbn in *; rewrite ?Ew in *; cbn in *; auto.
-  - tauto.
-  - rewrite map_app, in_app_iff in IN. tauto.
+  wcases s; cbn in *; rewrite ?Ew, ?Eq in *; cbn in *; auto.
   - rewrite map_app, in_app_iff in IN. tauto.
   - rewrite in_app_iff. tauto.
 Qed.
